@@ -413,6 +413,18 @@ structure KmSignedExt (χ κ : Type) where
   isIPRestricted : χ → Bool
   fingerprint : κ → Str × Option Err
 
+/-! ### cmd/keymasterd `secretInjectorHandler` -/
+
+/-- effects of the injection handler: a call of `unsealCA` with a passphrase on behalf of a client, a status written -/
+inductive InjectEffect
+  | unseal (passphrase : Str) (client : Str)
+  | status (code : Int)
+deriving DecidableEq, Repr
+
+/-- external: what `unsealCA` answers (translated and proved separately: `c09_go_wrong_passphrase`, `c09_go_success_iff`) -/
+structure InjectExt where
+  unsealResult : Str → Str → Option Err
+
 /-! ### cmd/keymasterd `consumeLoginChallenge` -/
 
 /-- `localUserData`: the pending challenge of a user; the two challenge pointers are compared by identity (numbers
